@@ -81,6 +81,12 @@ def run(res):
                 continue
             seen.add(kind)
             res.violation(detail + ' [%s]' % kind, dict(where, replay_kind='call', module='checks.c09', function='replay_side', args=[where]))
+    from . import c12
+    for kind, text, where in c12.frame_obligations(res, ('nbdime.webapp',)):
+        res.violation('frame obligation fails: %s' % text, {'kind': 'failed-frame-obligation', 'obligation': where, 'detail': text}, no_input=True)
+    from . import c20_bounded
+    c20_bounded.web_part(res, ('merge-not-library', 'history-dependence:merge'), 5,
+                         'C09 clause: the merge_decisions in the body of POST /api/merge are decide_notebook_merge (web tool strategy) of the three files as they are on disk at the time of the request.')
     res.assumptions.append('bounded: only the stated small scope is explored')
     res.coverage['rule'] += ' Lossless clause: decisions under the web tool strategy (mergetool), every decision re-labelled local (resp. remote) and applied with the real apply_decisions, compared with the local (remote) notebook.'
 
